@@ -78,6 +78,8 @@ QT = r"(&'[a-z]+ )?Quaternion<S>"
 
 
 def contracts(unit, im, f):
+    if im is None:
+        return None
     st, self_ref = base_type(im.selfty)
     if st != 'Quaternion':
         return None
